@@ -14,7 +14,7 @@ inductive Spec (α : Type) where
   | any                                     -- AnySpecifier()
   | range (r : Range α)                     -- RangeSpecifier(...)
   | union (rs : List (Range α)) (text : Option String)  -- UnionSpecifier(...)
-deriving Repr
+deriving Repr, DecidableEq
 
 namespace Spec
 variable {α : Type} [LinPre α]
